@@ -98,7 +98,7 @@ CHECKS["C15"] = dict(
 
 CHECKS["C03"] = dict(
     category="model_checking", design_ref="DESIGN.md §7 C03",
-    technique="trace validation (RealTrace.tla): SnapPolygon calls on all 7 accepted built-in sets; per returned coordinate the harness computes from the JSON document with exact rationals the distance to the ideal pixel centre, and TLC compares it with the deviation the tool reports (+2 ulp); exact-centre check on synthetic grids with tile widths 1..256; the deviation printed by the real binary is bound in C13 (CliTrace!DeviationReported)",
+    technique="trace validation (RealTrace.tla): SnapPolygon calls on all 7 accepted built-in sets; per returned coordinate the harness computes from the JSON document with exact rationals the distance to the ideal pixel centre, and TLC compares it with the deviation the tool reports (+2 ulp); exact-centre check on synthetic grids with tile widths 1..256; the deviation printed by the real binary is bound in C13 (CliTrace!DeviationReported); design lemmas on the level arithmetic by TLC (LevelArith.tla) and, without bounds, by Apalache (LevelArithInt.tla)",
     text="Every built-in set accepted by validation, ids 0..20 in random subsets of 1-3 (and ids beyond quadtree level 32), polygons at random places including the origin corner and near the far corner. Four TLC passes: all sets within deviation + document-inconsistency term; the four sets with exact documents strictly within the deviation; the three sets of known finding F8 are confirmed to exceed only by the document-inconsistency term; deep ids fall under known finding F9. A wrong level offset, factor 16 or origin corner is off by a large fraction of a pixel and fails every pass.",
     note="Trusted: TLC; math/big computation of index/offset/ulp from the document text; DeviationStats as the source of the reported deviation (as the property names it).")
 
